@@ -283,3 +283,64 @@ func H_C05_WitnessCommitment() {
 		zzverif.Reach("no-witness")
 	}
 }
+
+// C05: coinbase rules of PostCheckBlock / CheckTransactions: exactly the first transaction is a coinbase, its script
+// has 2..100 bytes and, from the BIP34 height on, starts with the serialised block height. Two-transaction blocks
+// with each transaction coinbase-shaped or not, scripts of 1, 2, 4..5, 100 and 101 bytes, the height push right, one
+// above, one below or absent, at a height before and after BIP34 activation. Merkle root matches by construction,
+// no witness data.
+func H_C05_CoinbaseRules() {
+	heights := []uint32{1000, 840000}
+	height := heights[zzverif.Enum("height", 2)]
+	ch, _, _ := h_chain(1, height-1)
+	raw := make([]byte, 81)
+	raw[0] = 4
+	bl, _ := btc.NewBlock(raw)
+	bl.Height = height
+	mk := func(name string, id byte) (*btc.Tx, bool) {
+		tx := new(btc.Tx)
+		tx.Version = 1
+		tx.Hash.Hash = h_id(id)
+		cb := zzverif.Bool(name + ".coinbase-shaped")
+		in := &btc.TxIn{Sequence: 0xffffffff, ScriptSig: []byte{}}
+		if cb {
+			in.Input.Vout = 0xffffffff
+		} else {
+			in.Input.Hash = h_id(0xA1)
+		}
+		tx.TxIn = []*btc.TxIn{in}
+		tx.TxOut = []*btc.TxOut{{Value: 0, Pk_script: []byte{0x51}}}
+		return tx, cb
+	}
+	tx0, cb0 := mk("tx0", 0xC0)
+	tx1, cb1 := mk("tx1", 0xD1)
+	// coinbase script: [height push variant] + padding up to a chosen total length
+	pushH := []uint32{height, height + 1, height - 1}[zzverif.Enum("height-push", 3)]
+	scr := script.UintToScript(pushH)
+	if zzverif.Bool("no-height-push") {
+		scr = []byte{}
+	}
+	total := []int{0, 1, 2, 100, 101}[zzverif.Enum("script-len", 5)]
+	for len(scr) < total {
+		scr = append(scr, 0x51)
+	}
+	tx0.TxIn[0].ScriptSig = scr
+	if cb1 {
+		tx1.TxIn[0].ScriptSig = []byte{0x51, 0x51}
+	}
+	bl.Txs = []*btc.Tx{tx0, tx1}
+	m, _ := bl.GetMerkle()
+	copy(bl.Raw[36:68], m)
+
+	want := cb0 && !cb1 && len(scr) >= 2 && len(scr) <= 100
+	if height >= ch.Consensus.BIP34Height {
+		want = want && bytes.HasPrefix(scr, script.UintToScript(height)) // the encoding itself: H_C05_BIP34Prefix
+	}
+	er := ch.PostCheckBlock(bl)
+	zzverif.Assert("C05.coinbase-rules", (er == nil) == want)
+	if er == nil {
+		zzverif.Reach("accepted")
+	} else {
+		zzverif.Reach("refused")
+	}
+}
